@@ -254,7 +254,85 @@ def api_cases(_=None):
   return n, n, viols, [dict(apis=list(edits))]
 
 
+def thread_cases(_=None):
+  """Threads editing distinct configurations: a suspension in one thread is that thread's own;
+  sequence numbers stay unique and increasing across threads."""
+  import threading
+  viols = []
+  def bad(what, name):
+    viols.append(dict(what=what, sig='api', store=name, op='', api=name, scenario=name, vkind='threads',
+                      kinds=[], hasdef=[]))
+  def fresh():
+    return fdl.Config(pool.fa, 1, 2, 3, 4, k=5)
+  # (1) another thread sits inside suspend_tracking() while this thread edits its own config
+  inside, release = threading.Event(), threading.Event()
+  other_cfg = fresh()
+  def suspender():
+    with history.suspend_tracking():
+      inside.set()
+      release.wait(10)
+      other_cfg.k = 'untracked'
+  t = threading.Thread(target=suspender)
+  t.start()
+  inside.wait(10)
+  mine = fresh()
+  b = entries(mine)
+  try:
+    for v in (1, 2, 3):
+      mine.c = v
+    fdl.add_tag(mine, 'k', pool.TagA)
+    del mine.k
+  finally:
+    release.set()
+    t.join()
+  new = [e.new_value for e in mine.__argument_history__.get('c', [])[len(b.get('c', [])):]]
+  if new != [1, 2, 3]:
+    bad(f'edits made on a thread with tracking enabled, while another thread was inside '
+        f'suspend_tracking(), were logged as {new} instead of [1, 2, 3]', 'suspend-other-thread')
+  for p_ in check_hist_state(mine, 'threads'):
+    bad(p_, 'suspend-other-thread')
+  if [e.new_value for e in other_cfg.__argument_history__.get('k', [])][-1:] == ['untracked']:
+    bad('an edit inside suspend_tracking() was logged', 'suspend-other-thread')
+  if not history.tracking_enabled():
+    bad('tracking is disabled in the main thread after another thread suspended it', 'suspend-other-thread')
+    history.set_tracking(True)
+  # (2) concurrent editors of distinct configurations
+  cfgs = [fresh() for _ in range(6)]
+  start = threading.Barrier(len(cfgs))
+  def editor(c, i):
+    start.wait(10)
+    for j in range(40):
+      c.c = (i, j)
+      if j % 7 == 0:
+        with history.suspend_tracking():
+          c.k = ('hidden', i, j)
+  ts = [threading.Thread(target=editor, args=(c, i)) for i, c in enumerate(cfgs)]
+  for t_ in ts:
+    t_.start()
+  for t_ in ts:
+    t_.join()
+  allids = [i for c in cfgs for i in all_seq(c)]
+  if len(set(allids)) != len(allids):
+    bad('sequence numbers are not unique across threads', 'concurrent-editors')
+  for i, c in enumerate(cfgs):
+    got = [e.new_value for e in c.__argument_history__.get('c', []) if isinstance(e.new_value, tuple)]
+    if got != [(i, j) for j in range(40)]:
+      bad(f'thread {i}: history of its own configuration is {got[:5]}..., not its 40 edits in order',
+          'concurrent-editors')
+    ids = [e.sequence_id for e in c.__argument_history__.get('c', [])]
+    if any(a >= b_ for a, b_ in zip(ids, ids[1:])):
+      bad(f'thread {i}: sequence ids not increasing in program order', 'concurrent-editors')
+    if any(isinstance(e.new_value, tuple) and e.new_value[:1] == ('hidden',)
+           for e in c.__argument_history__.get('k', [])):
+      bad(f'thread {i}: an edit made under suspend_tracking() was logged', 'concurrent-editors')
+  return 2, 2, viols, [dict(scenario='threads: suspension is per thread; concurrent editors')]
+
+
 def replay(case):
+  if case.get('vkind') == 'threads':
+    r = thread_cases()
+    m = [v for v in r[2] if v['scenario'] == case.get('scenario')]
+    return m[0]['what'] if m else None
   if case.get('api'):
     r = api_cases()
     m = [v for v in r[2] if v['api'] == case['api'] and
@@ -270,11 +348,13 @@ def run(tier='quick', seed=0, nproc=16):
   n = 3 if tier == 'quick' else 4
   res = common.pmap(check_sig, gen.shuffled([(s.kinds, s.hasdef) for s in gen.all_sigs(n)]), nproc)
   res.append(api_cases())
+  res.append(thread_cases())
   return common.merge(
       res, 'layerb.prop_C16', keyfn=lambda v: f"api:{v['api']}:{v.get('vkind')}" if v.get('api') else None,
       rule='every mutating edit of C03 (by name, index, negative index, VARARGS, slices incl. *args '
            'shifts) on every (signature <= %d, store): history invariant (ends with current value / '
            'DELETED / current tags), exactly one entry per changed stored value, fresh increasing '
            'sequence ids, caller location, no entries under suspend_tracking (nested, exceptions); '
-           'tag edits, update_callable, assign, materialize_defaults, copy_with' % n,
+           'tag edits (by name and by index), update_callable, assign, materialize_defaults, copy_with; '
+           'threads: suspension in one thread while another edits, 6 concurrent editors' % n,
       exhaustive=True, bound=f'signatures <= {n} params, single edits + listed API scenarios')
